@@ -107,7 +107,9 @@ func (y *c13Sys) audit(inflight map[string]int) (string, string) {
 // happen (ejections, windows lapsing, the breaker tripping) and is answered 200 when released:
 // the gauges count it for exactly as long as it is in flight
 var c13Events = []string{"req-ok", "req-404", "req-500", "req-refused", "req-abort", "eject-all", "clock+1.1s", "clock+11s", "req-client-gone", "req-103-then-500",
-	"start-held", "finish-held", "req-upgrade-declined"}
+	"start-held", "finish-held", "req-upgrade-declined",
+	// a backend registered at run time (once per history): it starts with no requests on record
+	"add-backend"}
 
 type c13Params struct {
 	Strategy         string
@@ -118,8 +120,9 @@ type c13Inst struct {
 	s    *vrt.Sched
 	y    *c13Sys
 	p    c13Params
-	out  string
-	held *lbp.VHeld
+	out   string
+	held  *lbp.VHeld
+	added bool
 }
 
 func (in *c13Inst) inflight() map[string]int {
@@ -165,6 +168,17 @@ func (in *c13Inst) Step(ev int) *vh.HViol {
 		in.y.k.ReleaseHeld(in.held)
 		in.out = fmt.Sprintf("held-finished:%d", in.held.Result().Status)
 		in.held = nil
+	case "add-backend":
+		if in.added {
+			in.out = "already-added"
+			break
+		}
+		in.added = true
+		if err := in.y.k.LB().AddBackend(config.BackendConfig{Name: "late", Address: "http://late.test:80", Weight: 1}); err != nil {
+			return &vh.HViol{Key: "C13/add-failed", What: err.Error()}
+		}
+		in.y.k.AdoptAll()
+		in.out = "added"
 	case "req-upgrade-declined":
 		in.y.issued++
 		res := in.y.k.RequestUpgradeDeclined("10.0.0.1")
@@ -192,7 +206,7 @@ func (in *c13Inst) Fingerprint() string {
 	if in.held != nil {
 		h = in.held.At()
 	}
-	return in.y.k.ControlState() + "|held:" + h
+	return in.y.k.ControlState() + "|held:" + h + fmt.Sprint("|added:", in.added)
 }
 
 func c13Spec(p c13Params, depth int) vh.HSpec {
